@@ -95,7 +95,14 @@ pub fn draw_op_with(r: &mut Rng, allow_state: bool) -> WOp {
             let mut edits = Vec::new();
             if r.chance(1, 2) {
                 for _ in 0..r.range(1, 2) {
-                    edits.push((r.below(140) as u16, *r.pick(&[b'g', b'G', b'@', b'/', b':', b'`', b'f', b'F', b'0', b'9', b'a', b'A', 0x80, 0xff, b' ', b'T', b't', b'1', b'2'])));
+                    // the replacement byte: a boundary character, any byte at all, or a valid digit with one bit flipped
+                    // (what a damaged medium does to stored text)
+                    let b = match r.below(3) {
+                        0 => *r.pick(&[b'g', b'G', b'@', b'/', b':', b'`', b'f', b'F', b'0', b'9', b'a', b'A', 0x80, 0xff, b' ', b'T', b't', b'1', b'2']),
+                        1 => r.next_u64() as u8,
+                        _ => *r.pick(b"0123456789abcdefABCDEF") ^ (1u8 << r.below(8)),
+                    };
+                    edits.push((r.below(140) as u16, b));
                 }
             }
             WOp::Parse { v, raw: draw_raw(r), edits, mode: r.below(3) as u8, lower: r.chance(1, 3), strip: r.chance(1, 3), resize: if r.chance(1, 4) { *r.pick(&[-3i8, -2, -1, 1, 2, 3, -128, 100]) } else { 0 } }
